@@ -480,7 +480,12 @@ pub fn gen_c20(prop: &str, tier: Tier, rng: &mut Rng, seed: u64, run: u64) -> Pl
     specs.push(match which {
         0 => DevSpec::Act,
         1 => DevSpec::Enc,
-        _ => DevSpec::Pid(rng.below(3) as u8, rng.moderate_f32().to_bits()),
+        _ => {
+            let (k, b) = (rng.below(3) as u8, rng.moderate_f32().to_bits());
+            plan.set("pid_cmd_kind", k as i64);
+            plan.set("pid_cmd_bits", b as i64);
+            DevSpec::Pid(k, b)
+        }
     });
     // the partner: an external terminal, another wrapper, or an inverter + external
     let partner = rng.below(4);
@@ -518,10 +523,23 @@ pub fn gen_c20(prop: &str, tier: Tier, rng: &mut Rng, seed: u64, run: u64) -> Pl
     let mut st = Stamps::new(rng, !monotone, monotone);
     let rounds = rng.range(1, if tier == Tier::Quick { 12 } else { 32 });
     let fault = *rng.pick(&[0.0, 0.05, 0.15, 0.3]);
-    // the PID wrapper always gets a state first (statement's domain)
-    if which == 2 {
+    // the PID wrapper usually gets a state first; in the other runs the terminal carries commands
+    // only for a while (or for ever) and the controller runs on its constructor state, exactly as a
+    // stand-alone CommandPID fed the constructor state at the commands' times would
+    let cmd_only_rounds = if which == 2 && rng.chance(0.4) { rng.range(2, 6) } else { 0 };
+    if which == 2 && cmd_only_rounds == 0 {
         let t = st.next(rng);
         state_op(&mut plan, rng, feed, t, 1.0);
+    }
+    for _ in 0..cmd_only_rounds {
+        let t = st.next(rng);
+        if rng.chance(0.6) {
+            // the same command again with a later stamp
+            plan.push("SC", &[feed as i64, t, plan.get("pid_cmd_kind"), plan.get("pid_cmd_bits")]);
+        } else {
+            cmd_op(&mut plan, rng, feed, t);
+        }
+        plan.push("UD", &[0]);
     }
     for _ in 0..rounds {
         match rng.below(5) {
@@ -566,7 +584,9 @@ pub fn gen_c20(prop: &str, tier: Tier, rng: &mut Rng, seed: u64, run: u64) -> Pl
                         plan.push("ENCE", &[d as i64, rng.range(1, 2)]);
                     } else if rng.chance(0.7) {
                         let t = st.next(rng);
-                        plan.push("ENC", &[d as i64, t, fb(rng.moderate_f32()), fb(rng.moderate_f32()), fb(rng.moderate_f32())]);
+                        // half of the readings only become current inside the inner update()
+                        let code = if rng.chance(0.5) { "ENCP" } else { "ENC" };
+                        plan.push(code, &[d as i64, t, fb(rng.moderate_f32()), fb(rng.moderate_f32()), fb(rng.moderate_f32())]);
                     }
                     if rng.chance(fault * 0.5) {
                         plan.push("ENCUERR", &[d as i64, rng.range(1, 2)]);
@@ -673,7 +693,7 @@ pub fn simplify(plan: &Plan) -> Vec<Plan> {
     // simpler values
     for (i, op) in plan.ops.iter().enumerate() {
         let idxs: &[usize] = match op.code.as_str() {
-            "SS" | "ENC" => &[2, 3, 4],
+            "SS" | "ENC" | "ENCP" => &[2, 3, 4],
             "SC" => &[3],
             _ => &[],
         };
@@ -708,7 +728,7 @@ pub fn simplify(plan: &Plan) -> Vec<Plan> {
         let mut times: Vec<i64> = plan
             .ops
             .iter()
-            .filter(|o| matches!(o.code.as_str(), "SS" | "SC" | "ENC"))
+            .filter(|o| matches!(o.code.as_str(), "SS" | "SC" | "ENC" | "ENCP"))
             .map(|o| o.arg(1))
             .collect();
         times.sort();
@@ -716,7 +736,7 @@ pub fn simplify(plan: &Plan) -> Vec<Plan> {
         if times.iter().enumerate().any(|(i, t)| *t != i as i64 + 1) {
             let mut p = plan.clone();
             for o in p.ops.iter_mut() {
-                if matches!(o.code.as_str(), "SS" | "SC" | "ENC") {
+                if matches!(o.code.as_str(), "SS" | "SC" | "ENC" | "ENCP") {
                     let r = times.binary_search(&o.a[1]).unwrap_or(0);
                     o.a[1] = r as i64 + 1;
                 }
